@@ -86,3 +86,21 @@ Qed.
 
 Lemma prod_pos_counts (cn : list N) : 0 < prodN cn -> Forall (fun c => 0 < c) cn.
 Proof. induction cn as [|c r IH]; intros H; cbn [prodN] in H; constructor; [nia|apply IH; nia]. Qed.
+
+(* the model's ReadSlice refuses a request inside the dataset with more than MaxHyperslabElements elements *)
+From HV Require Proofs.SliceRefineFit.
+Lemma read_slice_too_large lay full dims st cn : Forall u64 dims -> slice_valid st cn dims ->
+  max_hyperslab_elements < prodN cn -> read_slice lay full dims st cn = None.
+Proof.
+  intros Ud SV Hbig. unfold read_slice. rewrite (proj2 (slice_validate_ok st cn dims Ud) SV). cbv zeta.
+  assert (P : Forall (fun c => 0 < c) cn) by (apply prod_pos_counts; unfold max_hyperslab_elements in Hbig; lia).
+  pose proof (slice_valid_valid st cn dims SV P) as (_ & AV). destruct SV as (L1 & L2 & _).
+  rewrite (axes_of_slice st cn _ L1) in AV.
+  assert (Sne : slice_axes st cn <> []).
+  { unfold slice_axes. destruct cn as [|c cr]; [cbn [prodN] in Hbig; unfold max_hyperslab_elements in Hbig; lia|].
+    destruct st as [|s0 sr]; [rewrite <- L2 in L1; discriminate|]. cbn [length ones repeat zip4]. discriminate. }
+  pose proof (SliceRefineFit.out_elems_pos _ _ AV Sne) as Hn.
+  replace (out_elems (slice_axes st cn) =? 0) with false by (symmetry; apply N.eqb_neq; lia).
+  destruct (validate _ dims) eqn:E; [|reflexivity].
+  apply validate_count_bound in E. cbn [h_count] in E. lia.
+Qed.
